@@ -41,7 +41,7 @@ def _one(args):
         if o.returncode == 1:
             res = 'reported'
         elif o.returncode == 0:
-            res = 'silent'
+            res = 'silent' if 'UNDECIDED:' not in o.stdout else 'silent-with-undecided'
         else:
             res = 'analysis-broken'
         return {'case': name, 'expect': expect, 'result': res, 'rules': rules, 'sites': sites}
@@ -66,10 +66,10 @@ def calibrate(pid, repo):
     summary = {
         'what': 'seeded breaking changes and benign variants applied to a scratch copy of the current sources and analysed with the same rules (no execution)',
         'seeded_applicable': len(seeds), 'seeded_reported': sum(1 for r in seeds if r['result'] == 'reported'),
-        'benign_applicable': len(ben), 'benign_silent': sum(1 for r in ben if r['result'] == 'silent'),
+        'benign_applicable': len(ben), 'benign_silent': sum(1 for r in ben if r['result'] in ('silent', 'silent-with-undecided')), 'benign_silent_with_undecided': sum(1 for r in ben if r['result'] == 'silent-with-undecided'),
         'benign_undecided': sum(1 for r in ben if r['result'] == 'analysis-broken'), 'benign_false_alarm': sum(1 for r in ben if r['result'] == 'reported'),
         'skipped': [r['case'] for r in rows if r['result'] == 'skipped'],
-        'unexpected': [r for r in rows if r['result'] != 'skipped' and r['result'] != r['expect'] and not (r['expect'] == 'silent' and r['result'] == 'analysis-broken')],
+        'unexpected': [r for r in rows if r['result'] != 'skipped' and r['result'] != r['expect'] and not (r['expect'] == 'silent' and r['result'] in ('analysis-broken', 'silent-with-undecided'))],
         'cases': rows,
     }
     return summary
